@@ -1,5 +1,6 @@
 SPECIFICATION TSpec
 CONSTANTS
+  KnownF14 = FALSE
   IdleUs = 20000000
   SlackUs = 1000000
 POSTCONDITION TraceAccepted
